@@ -12,9 +12,21 @@ import (
 	"net"
 	"os"
 	"sync"
+	"sync/atomic"
 	"syscall"
 	"time"
 )
+
+// Hook, if set, is called at environment-boundary scheduling points (site, key) so that the
+// harness can park the calling goroutine there (see bubble.Gates.HookMemnet). Sites:
+// "memnet.Listener.Close.after" (key: the *Listener) - after the listener was closed and Accept woken.
+var Hook atomic.Pointer[func(site string, key any)]
+
+func hook(site string, key any) {
+	if h := Hook.Load(); h != nil {
+		(*h)(site, key)
+	}
+}
 
 type Addr struct{ Net, S string }
 
@@ -406,11 +418,15 @@ func (l *Listener) Accept() (net.Conn, error) {
 
 func (l *Listener) Close() error {
 	l.mu.Lock()
-	defer l.mu.Unlock()
 	l.Closes++
-	if !l.closed {
+	first := !l.closed
+	if first {
 		l.closed = true
 		close(l.closedCh)
+	}
+	l.mu.Unlock()
+	if first {
+		hook("memnet.Listener.Close.after", l)
 	}
 	return nil
 }
